@@ -71,7 +71,7 @@ else:
     for d in names:
         q.put(d)
     def worker(k):
-        base = f"/tmp/seedrun/w{k}"
+        base = f"/tmp/seedrun-{os.getpid()}/w{k}"
         os.makedirs(base, exist_ok=True)
         if not os.path.isdir(base + "/repo"):
             r = sh(f"git -C /repo worktree add --detach {base}/repo HEAD")
